@@ -15,6 +15,8 @@ type Worker struct {
 	solver      *SolverSet
 	lastUnknown bool
 	unsatCache  map[[2]uint64]bool
+	onStack     map[[2]uint64]int
+	stackHit    bool
 }
 
 func (w *Worker) checkWith(st *State, lit *Term) SatResult {
@@ -99,6 +101,8 @@ type Results struct {
 	Instrs          int64
 	UnknownBranches int64
 	ModelHits       int64
+	PORReduced      int64
+	PORProviso      int64
 	MaxDepth        int64
 	Funcs           map[string]bool
 	stop            int32
@@ -125,8 +129,29 @@ func (r *Results) reach(label string) {
 	r.mu.Unlock()
 }
 
+func (e *Engine) blockedSig(st *State) []string {
+	var out []string
+	for _, g := range st.gs {
+		if g.Status == gParked && g.Pending != nil && len(g.Frames) > 0 && !g.IsMain {
+			// innermost repository/overlay function on the stack
+			fn := g.Frames[len(g.Frames)-1].Fn.String()
+			for i := len(g.Frames) - 1; i >= 0; i-- {
+				fi := e.info(g.Frames[i].Fn)
+				if fi.repo || fi.overlay {
+					fn = g.Frames[i].Fn.String()
+					break
+				}
+			}
+			out = append(out, fn+":"+opNamesK[g.Pending.Kind])
+		}
+	}
+	sort.Strings(out)
+	return out
+}
+
 func (e *Engine) recordFailure(st *State, f *Failure) {
 	f.Decs = st.decisionList()
+	f.Blocked = e.blockedSig(st)
 	for k := range st.known {
 		f.Known = append(f.Known, k)
 	}
@@ -151,7 +176,7 @@ func (e *Engine) recordFailure(st *State, f *Failure) {
 		}
 		return
 	}
-	key := f.Kind + "|" + f.ID + "|" + f.Pos + "|" + strings.Join(f.Known, ",")
+	key := f.Kind + "|" + f.ID + "|" + f.Pos + "|" + strings.Join(f.Known, ",") + "|" + strings.Join(f.Blocked, ",")
 	if r.failKeys[key] {
 		return
 	}
@@ -229,7 +254,7 @@ func (e *Engine) Explore(root *State) error {
 		if err != nil {
 			return err
 		}
-		w := &Worker{e: e, id: i, solver: ss, unsatCache: map[[2]uint64]bool{}}
+		w := &Worker{e: e, id: i, solver: ss, unsatCache: map[[2]uint64]bool{}, onStack: map[[2]uint64]int{}}
 		e.workers = append(e.workers, w)
 		wg.Add(1)
 		go func(i int, w *Worker) {
@@ -388,8 +413,12 @@ func (w *Worker) explore(it item, depth int) {
 		atomic.StoreInt32(&e.res.stop, 1)
 		return
 	}
+	var h [2]uint64
 	if e.cfg.Stateful {
-		h := e.hashState(st, e.live)
+		h = e.hashState(st, e.live)
+		if w.onStack[h] > 0 {
+			w.stackHit = true
+		}
 		sk := make([]transKey, len(sleep))
 		for i := range sleep {
 			sk[i] = sleep[i].key()
@@ -419,6 +448,45 @@ func (w *Worker) explore(it item, depth int) {
 		sh.m[h] = visitedEntry{sleep: sk}
 		sh.mu.Unlock()
 	}
+	full := trans
+	reduced := false
+	if !e.cfg.NoPOR && len(trans) > 1 {
+		trans = e.persistentSet(st, trans)
+		if len(trans) < len(full) {
+			reduced = true
+			atomic.AddInt64(&e.res.PORReduced, 1)
+		}
+	}
+	if e.cfg.Stateful {
+		w.onStack[h]++
+		defer func() { w.onStack[h]-- }()
+	}
+	if reduced {
+		saved := w.stackHit
+		w.stackHit = false
+		w.expand(st, it, trans, sleep, depth, true)
+		hit := w.stackHit
+		w.stackHit = saved || hit
+		if hit && !e.stopped() {
+			// cycle proviso: the reduced set closed a cycle; expand the rest as well
+			var rest []Trans
+			for i := range full {
+				if !containsTrans(trans, &full[i]) {
+					rest = append(rest, full[i])
+				}
+			}
+			atomic.AddInt64(&e.res.PORProviso, 1)
+			w.expand(st, it, rest, append(append([]Trans{}, sleep...), trans...), depth, false)
+		}
+		return
+	}
+	w.expand(st, it, trans, sleep, depth, false)
+}
+
+// expand explores the given transitions from st (sleep-set filtered).
+func (w *Worker) expand(st *State, it item, trans []Trans, sleep []Trans, depth int, local bool) {
+	keep := local // the caller needs st intact afterwards
+	e := w.e
 	var alts []Trans
 	for _, t := range trans {
 		if !e.cfg.NoSleep && containsTrans(sleep, &t) {
@@ -448,7 +516,7 @@ func (w *Worker) explore(it item, depth int) {
 	for i := range alts {
 		t := alts[i]
 		var child *State
-		if i == len(alts)-1 {
+		if i == len(alts)-1 && !keep {
 			child = st
 		} else {
 			child = st.Clone()
@@ -472,7 +540,7 @@ func (w *Worker) explore(it item, depth int) {
 		child.addDecision("sched", e.transDesc(&t), i)
 		atomic.AddInt64(&e.res.Transitions, 1)
 		ci := item{st: child, cur: t.G, sleep: csleep}
-		if i < len(alts)-1 && atomic.LoadInt32(&e.pool.idle) > 0 {
+		if !local && i < len(alts)-1 && atomic.LoadInt32(&e.pool.idle) > 0 {
 			e.pool.push(ci)
 		} else {
 			w.explore(ci, depth+1)
